@@ -296,6 +296,8 @@ func (g *Genome) mutateAddLink(innovations InnovationsObserver, generation int, 
 		// Now add the new Gene to the Genome
 		if gene != nil {
 			g.geneInsert(gene)
+			// the network built above for the recurrence test does not express the new gene
+			g.Phenotype = nil
 		}
 	}
 
